@@ -117,7 +117,16 @@ func (jt *JSONTable) RenderTo(w io.Writer) error {
 		return err
 	}
 	needComma := false
-	for _, r := range jt.AllRows() {
+	rows := jt.AllRows()
+	// a comma follows an object only if another object comes later: separators
+	// after the last data row must not leave a trailing comma behind
+	lastData := -1
+	for i := range rows {
+		if !rows[i].IsSeparator() {
+			lastData = i
+		}
+	}
+	for i, r := range rows {
 		if needComma {
 			if _, err = io.WriteString(w, ",\n"); err != nil {
 				return err
@@ -133,7 +142,7 @@ func (jt *JSONTable) RenderTo(w io.Writer) error {
 		if err = jt.emitRowAsJSONObject(w, skipableColumns, keys, r.Cells()); err != nil {
 			return err
 		}
-		needComma = true
+		needComma = i < lastData
 	}
 	// We assume need newline prefix because no comma+newline from new row,
 	// but if the table is empty, this will result in "[\n\n]\n" which is
